@@ -198,6 +198,8 @@ def run(rep):
         rep.guarded("R-C06-step", lambda r, t=t: C06.rule_step(r, t, asyncmodel.extract(r.ctx.facts, t)))
     rep.floor("R-C06-step", 4 * 3 + 18)
     rep.clause("R-C06-step", "in all 18 arms the position advances by the current step exactly once per frame, nothing else modifies it (shared with C06)")
+    import shares
+    shares.agree(rep, "accounting is done on the returned counts: they must be the frames actually consumed and written", counter=True)
     rep.floor("R-C07-carry", 1 + 8 + 2)
     rep.floor("R-C07-gcd", 3 * 3 + 2)
     rep.floor("R-C07-conserve", 9 + 7)
